@@ -675,6 +675,13 @@ def task_volume(tier, seed, arg):
         run([a], {"c": c, "gamma": 120.0}, "volume:lattice")
         for ang in ((90.0, 90.0, 90.0), (90.0, 90.0, 120.0), (60.0, 60.0, 60.0)):
             run([], {"a": a, "b": b, "c": c, "alpha": ang[0], "beta": ang[1], "gamma": ang[2]}, "volume:lattice")
+        if i == 0:
+            # every combination of the special crystallographic angles (as int and as float), all three given explicitly:
+            # monoclinic settings with the unique axis a, b or c, triclinic cells with one or two right angles
+            import itertools
+            for ang in itertools.product((60, 90, 90.0, 104.5, 120), repeat=3):
+                if _valid_cell(*[float(x) for x in ang]):
+                    run([], {"a": a, "b": b, "c": c, "alpha": ang[0], "beta": ang[1], "gamma": ang[2]}, "volume:lattice:special_angles")
         while True:
             ang = tuple(round(rng.uniform(50.0, 130.0), 2) for _ in range(3))
             if _valid_cell(*ang):
